@@ -25,7 +25,7 @@ RULE = (
     "every field offset, == and hash of two independently built copies are queried, while the harness counts the elements enumerated "
     "inside the solver (itertools.product / combinations_with_replacement in the symbolic module) and the size of every numerical "
     "expansion.  Oracles: no expansion larger than 64 elements; work(huge) <= 8 * work(small) + 20000; work never exceeds a fixed budget "
-    "(an enumerating implementation is cut off deterministically instead of hanging).  No wall-clock oracle.  Non-trivial = a capacity >= "
+    "(an enumerating implementation is cut off deterministically instead of hanging); no explicit leaf set larger than 64 elements is built; and, as a backstop for growth that bypasses the counted primitives, CPU time (process time, load-insensitive) of the huge variant <= 50 x small + 5 s with a 12 s CPU cut-off.  No wall-clock oracle.  Non-trivial = a capacity >= "
     "2**32 and a variable-length member nested under another."
 )
 ASSUMPTIONS = [
@@ -36,10 +36,19 @@ BUDGET = {"quick": 400, "thorough": 8000}
 
 WORK_BUDGET = 40_000_000
 MAX_EXPANSION = 64
+CPU_BUDGET_S = 12.0  # CPU seconds (ITIMER_VIRTUAL: insensitive to machine load) per variant; legitimate cases need milliseconds
 
 
 class WorkBudgetExceeded(BaseException):
     pass
+
+
+class CpuBudgetExceeded(BaseException):
+    pass
+
+
+def _cpu_alarm(_sig: int, _frame: typing.Any) -> None:
+    raise CpuBudgetExceeded()
 
 
 class Meter:
@@ -49,6 +58,8 @@ class Meter:
         self.work = 0
         self.max_expansion = 0
         self.expansions = 0
+        self.max_leaf = 0
+        self.cpu_s = 0.0
         self.budget = WORK_BUDGET
 
     # --- itertools facade
@@ -83,6 +94,21 @@ def install(meter: Meter) -> None:
             if isinstance(cls, type) and issubclass(cls, sym.Operator) and "expand" in cls.__dict__ and cls is not sym.Operator:
                 _installed["expand"][cls] = cls.__dict__["expand"]
     sym.itertools = meter  # type: ignore
+    if "leaf_init" not in _installed:
+        _installed["leaf_init"] = sym.NullaryOperator.__init__
+
+        def leaf_init(self: typing.Any, values: typing.Any) -> None:
+            _installed["leaf_init"](self, values)
+            cur = _installed.get("meter")
+            if cur is not None:
+                n = len(self._value)
+                cur.max_leaf = max(cur.max_leaf, n)
+                cur.work += n
+                if cur.work > cur.budget:
+                    raise WorkBudgetExceeded()
+
+        _installed["leaf_init_wrapper"] = leaf_init
+    sym.NullaryOperator.__init__ = _installed["leaf_init_wrapper"]  # type: ignore
     for cls, orig in _installed["expand"].items():
         def make(o: typing.Any) -> typing.Any:
             def expand(self: typing.Any) -> typing.Any:
@@ -109,6 +135,7 @@ def uninstall() -> None:
         sym.itertools = _installed["itertools"]  # type: ignore
         for cls, orig in _installed["expand"].items():
             cls.expand = orig
+        sym.NullaryOperator.__init__ = _installed["leaf_init"]  # type: ignore
         _installed["meter"] = None
 
 
@@ -132,16 +159,27 @@ def exercise_api(spec: typing.Any) -> None:
 
 
 def measure(fn: typing.Callable[[], None]) -> typing.Tuple[Meter, typing.Optional[BaseException]]:
+    import signal
+    import time
+
     m = Meter()
     install(m)
     err: typing.Optional[BaseException] = None
+    old_handler = signal.signal(signal.SIGVTALRM, _cpu_alarm)
+    t0 = time.process_time()
     try:
-        fn()
-    except WorkBudgetExceeded as ex:
+        signal.setitimer(signal.ITIMER_VIRTUAL, CPU_BUDGET_S)
+        try:
+            fn()
+        finally:
+            signal.setitimer(signal.ITIMER_VIRTUAL, 0)
+    except (WorkBudgetExceeded, CpuBudgetExceeded) as ex:
         err = ex
     except (MemoryError, OverflowError, RecursionError) as ex:
         err = ex
     finally:
+        m.cpu_s = time.process_time() - t0
+        signal.signal(signal.SIGVTALRM, old_handler)
         uninstall()
     return m, err
 
@@ -181,17 +219,33 @@ def slot_values(choice: typing.Any) -> typing.Tuple[int, int]:
 
 
 def _verify_pair(kind: str, small: Meter, huge: Meter, es: typing.Any, eh: typing.Any, where: str) -> None:
-    if isinstance(es, WorkBudgetExceeded):
-        raise HarnessError("the small variant exceeds the work budget: the cost-model filter is too permissive (%s)" % where)
-    if es is not None:
-        raise Violation("crash:%s:%s" % (type(es).__name__, kind), "analysis completes", repr(es)[:200], where)
-    require(eh is None, "work-budget-exceeded:" + kind if isinstance(eh, WorkBudgetExceeded) else "crash:%s:%s" % (type(eh).__name__, kind),
-            "work(huge) about %d elements like the small variant" % small.work, "more than %d elements touched (cut off)" % WORK_BUDGET if isinstance(eh, WorkBudgetExceeded) else repr(eh)[:200], where)
+    def label(e: typing.Any) -> str:
+        if isinstance(e, WorkBudgetExceeded):
+            return "work-budget-exceeded"
+        if isinstance(e, CpuBudgetExceeded):
+            return "cpu-budget-exceeded"
+        return "crash:" + type(e).__name__
+
+    def describe(e: typing.Any) -> str:
+        if isinstance(e, WorkBudgetExceeded):
+            return "more than %d elements touched inside the solver (cut off)" % WORK_BUDGET
+        if isinstance(e, CpuBudgetExceeded):
+            return "more than %.0f CPU seconds (cut off)" % CPU_BUDGET_S
+        return repr(e)[:200]
+
+    # the cost-model filter keeps the legitimate cost of both variants three orders of magnitude below the budgets, so exceeding
+    # one - with the small capacities (2**8 .. 2**32) or with the huge ones - means the analysis scales with the capacity
+    require(es is None, label(es) + ":" + kind, "analysis of the small variant completes within the budgets", describe(es), where)
+    require(eh is None, label(eh) + ":" + kind, "work(huge) about %d elements / %.2f CPU s like the small variant" % (small.work, small.cpu_s), describe(eh), where)
     require(small.max_expansion <= MAX_EXPANSION and huge.max_expansion <= MAX_EXPANSION, "numerical-expansion:" + kind, "<= %d elements" % MAX_EXPANSION,
             (small.max_expansion, huge.max_expansion), where)
+    require(small.max_leaf <= MAX_EXPANSION and huge.max_leaf <= MAX_EXPANSION, "explicit-set-constructed:" + kind, "<= %d elements" % MAX_EXPANSION,
+            (small.max_leaf, huge.max_leaf), where)
     # (the two variants are not cost-identical: the extent of an enclosing delimited type scales with the capacities, so its
     # repetition count has another residue; that legitimately moves the count by a small factor, never by orders of magnitude)
     require(huge.work <= 8 * small.work + 20000, "cost-grows-with-capacity:" + kind, "<= 8 * %d + 20000" % small.work, huge.work, where)
+    # CPU time (process time, not wall clock): generous, only there to catch growth that bypasses the counted primitives
+    require(huge.cpu_s <= 50 * small.cpu_s + 5.0, "cpu-time-grows-with-capacity:" + kind, "<= 50 * %.3f + 5 s" % small.cpu_s, "%.3f s" % huge.cpu_s, where)
 
 
 def check_cost(case: typing.Any, ctx: Ctx) -> Info:
